@@ -35,6 +35,8 @@ def case_st(draw):
          "hcrc": draw(st.booleans()), "mtime": draw(st.sampled_from([0, 1, 0x7FFFFFFF])),
          "align": draw(st.sampled_from([None, None, [512, 0], [512, 1], [512, 511], [1024, 0], [1024, 1], [512, 100]])),
          "tailcut": draw(st.sampled_from([0, 0, 0, 1, 255, 256, 257, 511, 512, 513, 768, 1023, 1024, 1025])), "sparse": sparse,
+         # a second, tiny image in front of X (compressed whenever X is): per-image state must not leak between them
+         "pair": draw(st.integers(0, 3)) == 0,
          "seed": draw(st.integers(0, 10 ** 6)), "cmds": draw(st.lists(st.integers(0, len(COMMANDS) - 1), min_size=2,
                                                                      max_size=4, unique=True))}
     return c
@@ -49,7 +51,8 @@ class C10(CheckBase):
             "the whole .gz fits one 512-byte read) compressed with Python zlib at "
             "levels 0-9, optional FNAME/FCOMMENT/FEXTRA/FHCRC/MTIME header fields, 1-3 gzip members whose ends are "
             "optionally padded (FEXTRA) onto / next to multiples of the 512- and 1024-byte buffers.  Positive: "
-            "stdout and exit status of 2-4 commands on X.gz equal those on X.  Negative: every truncation point of "
+            "stdout and exit status of 2-4 commands on X.gz equal those on X (a quarter of the runs with a second, "
+            "tiny image attached in front, compressed whenever X is).  Negative: every truncation point of "
             "the .gz (all when <= 2 KiB, else 100), single-bit flips, a raw image renamed .gz, an empty file, the same "
             "image as a zlib (RFC 1950) / raw deflate / bzip2 / xz stream; an "
             "independent inflater (Python zlib, member loop) is the referee: if it rejects the stream dfs must exit "
@@ -161,9 +164,25 @@ class C10(CheckBase):
             plain = sb.file("p/img." + ext, data)
             cmds = [self._cmd(case, COMMANDS[i], out) for i in case["cmds"]]
 
+            pair = bool(case.get("pair")) and mode == "positive"
+            if pair:
+                tiny = disc.build_surface({"variant": "acorn", "tracks": 40, "spt": 10, "fill": {"kind": "zero", "seed": 0},
+                                           "volumes": [{"label": None, "title": b"TINY", "cycle": 0, "boot": 0,
+                                                        "total": 400, "cats": [[]]}]})[:768]
+                tiny_plain = sb.file("p/tiny.ssd", tiny)
+                tiny_gz = sb.file("z/tiny.ssd.gz", containers.gz(tiny, level=6))
+                v.classes.append("second-image-in-front")
+                # X becomes drive 1 (and up): re-address the commands
+                cmds = [[("1" if (c_[0] == "dump-sector" and i == 1) else a.replace(":0.", ":1.")) for i, a in enumerate(c_)]
+                        for c_ in cmds]
+
             def run_on(path, cmd):
-                r = runtool.run([dfs, "--file", path] + cmd if cmd[0] != "--show-config"
-                                else [dfs, "--show-config", "--file", path] + cmd[1:], sb.path, timeout=30)
+                files = ["--file", path]
+                if pair:
+                    files = ["--drive-first", "--file", tiny_gz if path.endswith(".gz") else tiny_plain,
+                             "--file", path, "--drive", "1"]
+                r = runtool.run([dfs] + files + cmd if cmd[0] != "--show-config"
+                                else [dfs, "--show-config"] + files + cmd[1:], sb.path, timeout=30)
                 v.evaluations += 1
                 return r
             if mode == "positive":
